@@ -1,6 +1,13 @@
 #![allow(dead_code)]
 mod alloc;
+mod check;
 mod driver;
+mod faults;
+mod grid;
+mod lfu;
+mod plan;
+mod probes;
+mod replay_aux;
 mod engine;
 mod hashers;
 mod iters;
@@ -59,6 +66,33 @@ fn main() {
         }
         return;
     }
-    eprintln!("usage: mc explore ...");
+    match args.get(1).map(|s| s.as_str()) {
+        Some("check") => {
+            let prop = match args.get(2).and_then(|p| check::static_id(p)) {
+                Some(p) => p,
+                None => {
+                    eprintln!("unknown property id");
+                    std::process::exit(2);
+                }
+            };
+            let mut tier = match std::env::var("VERIF_TIER").ok().as_deref() {
+                Some("thorough") => plan::Tier::Thorough,
+                _ => plan::Tier::Quick,
+            };
+            let mut i = 3;
+            while i < args.len() {
+                if args[i] == "--tier" {
+                    tier = if args.get(i + 1).map(|s| s.as_str()) == Some("thorough") { plan::Tier::Thorough } else { plan::Tier::Quick };
+                    i += 1;
+                }
+                i += 1;
+            }
+            let seed: u64 = std::env::var("VERIF_SEED").ok().and_then(|s| s.parse().ok()).unwrap_or(0);
+            std::process::exit(check::run(prop, tier, seed));
+        }
+        Some("replay") => std::process::exit(check::replay(&args[2])),
+        _ => {}
+    }
+    eprintln!("usage: mc check <ID> [--tier quick|thorough] | mc replay <file> | mc explore ...");
     std::process::exit(2);
 }
